@@ -208,6 +208,9 @@ def transpile_case(acc: Acc, module: str) -> None:
 
 
 SPECIAL = [
+	'class Base:\n\tdef __init__(self, n: int, m: int = 2) -> None:\n\t\tself.n = n\nclass Sub(Base):\n\tdef __init__(self, n: int) -> None:\n\t\tsuper(Sub, self).__init__(n, 3)\n\t\tsuper().__init__(n)\n\tdef m(self) -> int:\n\t\treturn super(Sub, self).n\n',
+	'def f(a: int, b: int, c: int = 1, d: int = 2) -> int:\n\tx = a - b - 1\n\ty = a + b + c + d\n\treturn x - y - x\n',
+	'a = b = n * 2\nx = n + 1\nc = d = e = x\n',
 	# modules that consist of string literals only (a package __init__ with nothing but its doc string), doc strings everywhere
 	'"""doc"""\n', "'a'\n'b'\n", '"""doc"""\nx = 1\n', 'def f() -> None:\n\t"""doc"""\n\tx = 1\n\t"""not a doc"""\nclass A:\n\t"""doc"""\n\tdef m(self) -> None:\n\t\t"""doc"""\n', '', '\n', 'pass\n', '...\n',
 	'x = ()\n', 'def f() -> None:\n\treturn\n', 'with a:\n\tpass\n', '@deco\ndef f() -> None:\n\t...\n', 'x = a[:]\ny = a[::2]\n',
